@@ -34,10 +34,12 @@ import (
 	"math/big"
 	"os"
 	"runtime"
+	"runtime/pprof"
 	"sort"
 	"strconv"
 	"strings"
 	"sync"
+	"time"
 
 	"github.com/bronlabs/bron-crypto/pkg/base/algebra"
 	"github.com/bronlabs/bron-crypto/pkg/base/curves/edwards25519"
@@ -119,6 +121,7 @@ type caseRun struct {
 	mism       []vh.Mismatch                      // property predicate failures (implementation alone)
 	pk         string                             // public key (hex) when the run completed
 	note       string
+	dur        time.Duration
 }
 
 type groupT struct {
@@ -310,7 +313,20 @@ func runCase[E algebra.PrimeGroupElement[E, S], S algebra.PrimeFieldElement[S]](
 	ac, _ := cs.pol.build()
 	scheme, err := feldman.NewScheme(g, ac)
 	if err != nil {
-		prop("feldman-scheme-refused", err.Error())
+		// the library refuses to induce an MSP for this structure (Tassa's conditions on IDs and field
+		// size, ...): a refusal by design, provided the key generation refuses as well
+		out.class = fmt.Sprintf("refused-msp/%s/%c", cs.proto, cs.pol.fam)
+		out.nontrivial = false
+		out.note = err.Error()
+		ran := len(rd.shards) > 0
+		for _, id := range ids {
+			if v, ok := rd.trace.Verdicts[id]; ok && v.Class == "ok" && cs.proto != "D" {
+				ran = true
+			}
+		}
+		if ran {
+			prop("dkg-runs-on-refused-structure", "feldman.NewScheme refuses the access structure but the key generation ran: "+err.Error())
+		}
 		return out
 	}
 	m := scheme.MSP()
@@ -497,7 +513,10 @@ func runCase[E algebra.PrimeGroupElement[E, S], S algebra.PrimeFieldElement[S]](
 		prop("no-qualified-set", "no subset of the shareholders reconstructs")
 	}
 	// ---- P5: store / reload
-	for _, id := range ids {
+	for pi, id := range ids {
+		if a.Tier != "thorough" && pi != 0 && pi != len(ids)-1 {
+			continue // quick tier: first and last party
+		}
 		sh := rd.shards[id]
 		var data, data2 []byte
 		var back *mpc.BaseShard[E, S]
@@ -766,28 +785,33 @@ func buildCases(a vh.Args, groups []*groupT) []caseSpec {
 	maxN := 4
 	reps := 1
 	if thorough {
-		maxN, reps = 8, 2
+		maxN, reps = 8, 1
 	}
 	if a.Search {
 		reps *= 3
 	}
-	// a policy per (family, size, ID assignment); the groups and protocols rotate over them
-	k := 0
+	// a policy per (family, size, ID assignment). Canetti and the dealer run every policy on every
+	// group; Gennaro (Fiat-Shamir, the expensive one) runs, in the quick tier, one size per
+	// (family, ID assignment, group) — the size rotates — and in the thorough tier every policy of
+	// size <= 4 on every group and the larger ones on a rotating group.
 	for rep := 0; rep < reps; rep++ {
-		for _, fam := range fams {
+		for fi, fam := range fams {
 			for n := 2; n <= maxN; n++ {
 				for kind := 0; kind < 3; kind++ {
-					pol := genPolicy(r, fam, n).mapIDs(assignIDs(kind, n))
+					pol := genPolicy(r, fam, n).mapIDs(assignFor(fam, kind, n))
 					for gi, g := range useGroups {
-						// canetti and dealer: every policy on every group
 						add(caseSpec{proto: "C", group: g.name, pol: pol, comp: "-", mode: "rounds"})
 						add(caseSpec{proto: "D", group: g.name, pol: pol, comp: "-", mode: "rounds"})
-						// gennaro (Fiat-Shamir): quick — each policy on one of the groups, thorough — all (n <= 6) / rotating
-						if thorough && n <= 6 || (k+gi)%len(useGroups) == 0 {
+						var doG bool
+						if thorough {
+							doG = n <= 4 || (fi+kind+n+rep)%len(useGroups) == gi
+						} else {
+							doG = (n-2) == (fi+kind+gi+rep)%3
+						}
+						if doG {
 							add(caseSpec{proto: "G", group: g.name, pol: pol, comp: string(fiatshamir.Name), mode: "rounds"})
 						}
 					}
-					k++
 				}
 			}
 		}
@@ -798,7 +822,7 @@ func buildCases(a vh.Args, groups []*groupT) []caseSpec {
 	add(caseSpec{proto: "G", group: useGroups[1].name, pol: policy{fam: 'U', ids: []uint64{1, 2}}, comp: string(randfischlin.Name), mode: "rounds"})
 	if thorough {
 		for gi, g := range useGroups {
-			pol := genPolicy(r, fams[gi%len(fams)], 3).mapIDs(assignIDs(gi%3, 3))
+			pol := genPolicy(r, fams[gi%len(fams)], 3).mapIDs(assignFor(fams[gi%len(fams)], gi%3, 3))
 			add(caseSpec{proto: "G", group: g.name, pol: pol, comp: string(fischlin.Name), mode: "rounds"})
 			add(caseSpec{proto: "G", group: g.name, pol: pol, comp: string(randfischlin.Name), mode: "rounds"})
 		}
@@ -814,7 +838,7 @@ func buildCases(a vh.Args, groups []*groupT) []caseSpec {
 				continue
 			}
 			n := 2 + (i+gi)%3
-			pol := genPolicy(r, fams[(i+gi)%len(fams)], n).mapIDs(assignIDs((i+gi)%3, n))
+			pol := genPolicy(r, fams[(i+gi)%len(fams)], n).mapIDs(assignFor(fams[(i+gi)%len(fams)], (i+gi)%3, n))
 			add(caseSpec{proto: "G", group: g.name, pol: pol, comp: string(fiatshamir.Name), mode: "runner"})
 			add(caseSpec{proto: "C", group: g.name, pol: pol, comp: "-", mode: "runner"})
 		}
@@ -826,6 +850,11 @@ func buildCases(a vh.Args, groups []*groupT) []caseSpec {
 
 func main() {
 	a := vh.ParseArgs()
+	if pf := os.Getenv("C03_PROF"); pf != "" {
+		f, _ := os.Create(pf)
+		pprof.StartCPUProfile(f)
+		defer pprof.StopCPUProfile()
+	}
 	res := vh.NewResult("C03", a.Seed, a.Tier)
 	res.Rule = "honest runs of the real Gennaro DKG (Fiat-Shamir, Fischlin, randomised Fischlin), Canetti DKG and trusted dealer, round by round through CBOR (driver packages) and through the runner API over an in-memory delivery; access structures: threshold, unanimity, CNF, hierarchical, threshold-gate trees of sizes 2..4 (quick) / 2..8 (thorough) under three ID assignments (ordinal, sparse unsorted, >= 2^40); groups k256 + BLS12-381 G1 (quick) / all seven (thorough). Model (Dkg.v extracted) gets the recorded tapes and the induced MSP; compared: shares, verification vectors, public key, public shares, Gennaro broadcasts/unicasts, reconstruction over every subset, NewBaseShard on a shifted share. A case is non-trivial when the access structure was accepted and the protocol ran."
 	groups := allGroups()
@@ -891,7 +920,9 @@ func main() {
 					runs[i] = &caseRun{spec: cases[i], class: "unknown-group"}
 					continue
 				}
+				t0 := time.Now()
 				runs[i] = g.run(a, cases[i])
+				runs[i].dur = time.Since(t0)
 			}
 		}()
 	}
@@ -921,10 +952,22 @@ func main() {
 			}
 		}
 	}
+	refused := 0
+	for _, r := range runs {
+		if strings.HasPrefix(r.class, "refused") {
+			refused++
+			if refused <= 3 {
+				res.Note("structure refused by the library (compared as a refusal): %s: %s", r.spec.pol.text(), r.note)
+			}
+		}
+	}
+	if refused > 0 {
+		res.Note("%d runs on structures the library refuses", refused)
+	}
 	pkSeen := map[string]string{}
 	for i, r := range runs {
 		res.Count(r.class, r.spec.text(), r.nontrivial)
-		if r.note != "" && strings.HasPrefix(r.class, "refused") {
+		if false && r.note != "" && strings.HasPrefix(r.class, "refused") {
 			res.Note("policy refused by its constructor: %s (%s)", r.spec.pol.text(), r.note)
 		}
 		for _, m := range r.mism {
@@ -966,5 +1009,15 @@ func main() {
 			}
 		}
 	}
+	durs := map[string]time.Duration{}
+	for _, r := range runs {
+		durs[r.spec.proto+"/"+r.spec.comp+"/"+r.spec.mode] += r.dur
+	}
+	var dk []string
+	for k, v := range durs {
+		dk = append(dk, fmt.Sprintf("%s=%.1fs", k, v.Seconds()))
+	}
+	sort.Strings(dk)
+	fmt.Fprintln(os.Stderr, "c03 cpu per class:", strings.Join(dk, " "))
 	res.Write(a.Out)
 }
